@@ -394,6 +394,13 @@ func oracle(c *octx) *eng.Violation {
 	case "C05":
 		return c.cancelRules()
 	case "C19":
+		if nonPositiveRetries(c.sc) {
+			// what a retry count <= 0 means is not stated: such a scenario is judged by
+			// last-setting-wins on the getters and against its canonically configured
+			// twin only (twins), both of which run the real code
+			c.out.Probes["nonpositive_retries_judged_by_twin_only"]++
+			return nil
+		}
 		return first(c.mainEq("behaviour", projFull, false), c.lanesEq("item-behaviour", projFull, false), c.slots("slot"), c.inFlight("concurrency"))
 	case "C20":
 		return c.waits()
@@ -1073,4 +1080,24 @@ func (c *octx) batchCancel() *eng.Violation {
 		}
 	}
 	return first(c.slotsHonest(), c.nothingAfterReturn("callback-after-return"))
+}
+
+// nonPositiveRetries: some node's retry count is <= 0 at some point of its configuration.
+func nonPositiveRetries(sc *Scn) bool {
+	for _, n := range sc.Nodes {
+		for _, s := range n.Settings {
+			if s.Param == "retries" && s.Val <= 0 {
+				return true
+			}
+		}
+		for _, s := range n.Reconf {
+			if s.Param == "retries" && s.Val <= 0 {
+				return true
+			}
+		}
+		if n.configRun(0).Retries <= 0 || n.configRun(1).Retries <= 0 {
+			return true
+		}
+	}
+	return false
 }
